@@ -113,9 +113,9 @@ def line_info(raw_lines):
     return sent
 
 
-def run_1090(bindir, segs, sent, tag):
-    r = apps.run_1090(bindir, [{"segments": segs, "then": "hold"}])
-    return {"ev": "feed", "client": "1090", "tag": tag, "mode": "hold", "sent": sent, "printed": [p.lower() for p in r["printed"]],
+def run_1090(bindir, segs, sent, tag, then="hold"):
+    r = apps.run_1090(bindir, [{"segments": segs, "then": then, "linger": 0.2}])
+    return {"ev": "feed", "client": "1090", "tag": tag, "mode": "hold" if then == "hold" else "close", "sent": sent, "printed": [p.lower() for p in r["printed"]],
             "blocks": r["blocks"],
             "alive": r["alive"], "exit": r["exit"], "panic": r["panic"], "keys_before": [], "keys_after": [], "reconnected": 0}
 
@@ -344,11 +344,18 @@ def run(prop, tier, seed, rep):
                      [[list(b"".join(raw[2:])), "short"]]))
         if i % 2 == 0:
             jobs.append(("radar-retry-reset", [[list(b"".join(raw[:2])), "short"]], line_info(raw), "reconnect-reset", "retry", [[list(b"".join(raw[2:])), "short"]]))
+        # 1090 and a server that goes away, after a complete line or in the middle of one, by closing or by aborting the
+        # connection: every complete line that was sent is taken (what 1090 does afterwards - it keeps polling the closed
+        # stream - is not the property's business and not judged)
+        jobs.append(("1090-close" if i % 2 == 0 else "1090-reset", [[list(b"".join(raw[:3]) + (frag if i % 3 else b"")), rng.choice(("short", "long"))]],
+                     line_info(raw[:3]), "disconnect-1090", "close"))
 
     def do(job):
         kind = job[0]
         if kind == "1090":
             return run_1090(bindir, job[1], job[2], job[3])
+        if kind in ("1090-close", "1090-reset"):
+            return run_1090(bindir, job[1], job[2], job[3], then=kind[5:])
         if kind == "radar":
             return run_radar(bindir, [{"segments": job[1], "then": "hold"}], job[2], job[3], "hold")
         if kind == "radar-close":
